@@ -590,4 +590,13 @@ def report (now : Int) (s : Mgr) : Option Report :=
   | some ac, some v => some (buildPlaying now v (ac.map fun (b, c) => (c.name, b)))
   | _, _ => none
 
+/-- A listener that remembers the report it read the last time it was woken (`known`), fed the
+    messages one after the other.  This is also what happens when several messages are dispatched
+    back to back while `state_updated()` is still suspended: no handler contains an `await`
+    before its wake-up, so the handlers run one after the other in dispatch order and every
+    wake-up reads the state at its own point of that order. -/
+def listen (now : Int) (sk : Mgr × Option Report) (m : Msg) : Mgr × Option Report :=
+  let (s', w) := stepW true sk.1 m
+  (s', match w with | some seen => report now seen | none => sk.2)
+
 end PyatvModel.C11
